@@ -298,10 +298,24 @@ def check_execute_steps(chk, ix):
     chk.rule("X7", WHAT["X7"])
     cc = ix.cls("behave.runner:Context")
     f = cc.lookup("execute_steps")
-    for original in ("values", "none"):
-        def step_run(it, st, args, kw, node):
+    for original in ("values", "none", "nested"):
+        def step_run(it, st, args, kw, node, _original=original):
             outs = []
             ctx = st.ghost["ctx"]
+            if _original == "nested" and not st.ghost.get("nested_entered"):
+                # a sub-step that has a doc-string / table of its own and calls execute_steps() itself
+                s = st.fork()
+                s.ghost["nested_entered"] = True
+                c = s.wobj(ctx)
+                c.fields["text"] = "middle text"
+                c.fields["table"] = "middle table"
+                for (s2, k2, v2) in it.call_function(s, f, [Txt()], {}, node, self_val=ctx):
+                    c2 = s2.obj(ctx)
+                    if (c2.fields.get("text"), c2.fields.get("table")) != ("middle text", "middle table"):
+                        s2.ghost["x7.err"] = "after the inner execute_steps() the calling sub-step sees text/table %r instead of its own" % (
+                            (c2.fields.get("text"), c2.fields.get("table")),)
+                    outs.append((s2, "val", True) if k2 == "val" else (s2, k2, v2))
+                return outs
             for ok in (True, False):
                 s = st.fork()
                 c = s.wobj(ctx)
@@ -309,6 +323,15 @@ def check_execute_steps(chk, ix):
                 c.fields["table"] = "substep table"
                 outs.append((s, "val", ok))
             return outs
+
+        class Txt(object):
+            abs_type = "str"
+
+            def __repr__(self):
+                return "steps-text"
+
+            def abs_truth(self):
+                return True
         stubs = {"@with": "transparent", "SubStep.run": step_run,
                  "Context._use_with_behave_mode": lambda it, st, a, k, n: [(st, "val", None)],
                  "ParserTok.parse_steps": lambda it, st, a, k, n: [(st, "val", st.alloc(HObj("list", kind="list", items=[
@@ -320,27 +343,21 @@ def check_execute_steps(chk, ix):
         st.frames = []
         parser = st.alloc(HObj("ParserTok", {"variant": None}, label="parser"))
         feat = st.alloc(HObj("FeatTok", {"parser": parser}, label="feature"))
-        o_text, o_table = ("caller text", "caller table") if original == "values" else (None, None)
+        o_text, o_table = ("caller text", "caller table") if original in ("values", "nested") else (None, None)
         ctx, stack, frefs = _ctx(ix, st, [{"@layer": "scenario"}, {"@layer": "testrun"}], feature=feat, text=o_text, table=o_table)
         st.ghost["ctx"] = ctx
         st.pinned = (ctx.oid,)
         st.freeze_base()
 
-        class Txt(object):
-            abs_type = "str"
-
-            def __repr__(self):
-                return "steps-text"
-
-            def abs_truth(self):
-                return True
         outs = it.run(f, st, [Txt()], {}, self_val=ctx)
         chk.absorb(it)
         chk.instance("X7")
         for (s, k, v) in outs:
             c = s.obj(ctx)
             got = (c.fields.get("text"), c.fields.get("table"))
-            if got == (o_text, o_table):
+            if s.ghost.get("x7.err"):
+                _fail(chk, "X7", f, "nested execute_steps: inner call clobbers the middle step", s.ghost["x7.err"], s.path)
+            elif got == (o_text, o_table):
                 chk.ok("X7", {"caller": original, "exit": k, "restored": True}, nontrivial_key=(original, k))
             else:
                 _fail(chk, "X7", f, "caller=%s exit=%s text/table=%r" % (original, k, got),
